@@ -362,6 +362,11 @@ fn run_op(op: &Op, _in_dtor: bool) {
                     let h = take(a[1]);
                     drop(h_rc(h));
                 }
+                "drop_via_raw" => {
+                    let h = take(a[1]);
+                    let p = Rc::into_raw(h_rc(h));
+                    unsafe { Rc::decrement_strong_count(p) };
+                }
                 "cost_clone" => {
                     let (r, d) = with_rc(a[1], |r| {
                         let a0 = ALLOCS.load(Ordering::Relaxed);
@@ -471,6 +476,22 @@ fn run_op(op: &Op, _in_dtor: bool) {
                     put(a[2], H::Weak(w));
                 }
                 "weak_new" => put(a[1], H::Weak(Weak::new())),
+                "upgrade_if" | "wdrop_if" => {
+                    let present = ST.with(|s| s.borrow().handles.contains_key(a[1]));
+                    if present {
+                        if a[0] == "upgrade_if" {
+                            match with_weak(a[1], |w| w.upgrade()) {
+                                Some(h) => {
+                                    out("ret upgrade some".to_string());
+                                    drop(h);
+                                }
+                                None => out("ret upgrade none".to_string()),
+                            }
+                        } else {
+                            match take(a[1]) { H::Weak(w) => drop(w), _ => panic!("SCRIPT: not weak") }
+                        }
+                    }
+                }
                 "upgrade" => {
                     let r = with_weak(a[1], |w| w.upgrade());
                     match r {
